@@ -1,5 +1,6 @@
 import CModel.Spice
 import CModel.DriverUtil
+import CModel.WalletFile
 /-! Line protocol for C05: replays S/T/N lines on the Spice model. -/
 namespace CModel.SpiceDrv
 open CModel CModel.Drv CModel.Melange
@@ -30,6 +31,14 @@ def step (line : String) : Option (String × Option String) :=
       let r := Melange.new (← u64? c) (← u64? s)
       let out := s!"{r.cur} {r.supp}"
       some ("new", if out == s!"{rc} {rs}" then none else some out)
+  | _ => none
+
+/-- C20 lines: `WF keyOk lenOk unmodified sameKey outcome` against `WalletFile.classify`. -/
+def stepWF (line : String) : Option (String × Option String) :=
+  match toks line with
+  | ["WF", k, l, u, s, out] =>
+    let m := CModel.WalletFile.classify (k == "1") (l == "1") (u == "1") (s == "1")
+    some (s!"walletfile.{m}", if m == out then none else some m)
   | _ => none
 
 end CModel.SpiceDrv
